@@ -504,6 +504,18 @@ impl<T: Qcow2IoOps> Qcow2Dev<T> {
     pub async fn flush_meta(&self) -> Qcow2Result<()> {
         let _flush_lock = self.flush_lock.lock().await;
 
+        // clear the flag before flushing: anyone who dirties meta data while
+        // this flush is in progress sets it again, and it is kept
+        self.mark_need_flush(false);
+
+        let res = self.__flush_meta().await;
+        if res.is_err() {
+            self.mark_need_flush(true);
+        }
+        res
+    }
+
+    async fn __flush_meta(&self) -> Qcow2Result<()> {
         log::debug!("flush_meta: entry");
         loop {
             self.zero_new_clusters().await?;
@@ -521,7 +533,6 @@ impl<T: Qcow2IoOps> Qcow2Dev<T> {
                 .flush_meta_generic(l1, &self.l2cache, |off| self.l2_slice_key_of_l1_off(off))
                 .await?;
             if done {
-                self.mark_need_flush(false);
                 break;
             }
         }
